@@ -16,6 +16,24 @@ from harness import common
 from harness.common import clist
 
 K_SMALL, P_SMALL, U_SMALL = 4, 2, 2
+EMPTY = 9          # index of the empty string in both pools: "" is a legal (and falsy) prefix / URI
+
+
+def fresh(s):
+    """a NEW str object with the same value (never a shared literal): `is`/`==` slips stay visible"""
+    return "".join(list(s))
+
+
+def pstr(i):
+    return fresh("" if i == EMPTY else "p%d" % i)
+
+
+def ustr(i):
+    return fresh("" if i == EMPTY else "u%d" % i)
+
+
+def pidx(s):
+    return EMPTY if s == "" else int(s[1:])
 HEADER = "From MP Require Import Common.Base Common.Tree Model.Heap Model.Namespace Model.NsRun.\n"
 
 
@@ -32,16 +50,16 @@ class Impl:
         if op[0] == "A":
             ns[op[1]].add_child(ns[op[2]], index=op[3])
         elif op[0] == "D":
-            ns[op[1]].add_namespace("p%d" % op[2], "u%d" % op[3])
+            ns[op[1]].add_namespace(pstr(op[2]), ustr(op[3]))
         else:
-            ns[op[1]].remove_namespace("p%d" % op[2])
+            ns[op[1]].remove_namespace(pstr(op[2]))
 
     def observe(self):
         first = {}
         out = []
         for i, n in enumerate(self.nodes):
             cls = first.setdefault(id(n.nsmap), i)
-            out.append(([(int(p[1:]), int(u[1:])) for p, u in n.nsmap.items()], cls,
+            out.append(([(pidx(p), pidx(u)) for p, u in n.nsmap.items()], cls,
                         [self.index[id(c)] for c in n.children]))
         return out
 
@@ -71,12 +89,12 @@ class Abstract:
         if op[0] == "D":
             sub = self.subtree(op[1])
             for m in sub:
-                self.vis[m]["p%d" % op[2]] = "u%d" % op[3]
+                self.vis[m][pstr(op[2])] = ustr(op[3])
             return sub
         if op[0] == "U":
             sub = self.subtree(op[1])
             for m in sub:
-                self.vis[m].pop("p%d" % op[2], None)
+                self.vis[m].pop(pstr(op[2]), None)
             return sub
         par, c = op[1], op[2]
         self.kids[par].append(c)          # position is irrelevant to the namespace statement
@@ -132,6 +150,7 @@ def enum_histories(depth, K=K_SMALL, P=P_SMALL, U=U_SMALL):
                 np1 = max(np_, p + 1)
                 for u in range(min(nu + 1, U)):
                     rec(hist + [("D", n, p, u)], parent, nn1, np1, max(nu, u + 1))
+                rec(hist + [("D", n, p, EMPTY)], parent, nn1, np1, nu)      # the empty URI is not interchangeable
                 rec(hist + [("U", n, p)], parent, nn1, np1, nu)
 
     rec([], [None] * K, 0, 0, 0)
@@ -155,9 +174,9 @@ def random_history(rng, k, length, P=3, U=3):
         if op is None:
             n = rng.randrange(k)
             if r < 0.8:
-                op = ("D", n, rng.randrange(P), rng.randrange(U))
+                op = ("D", n, rng.choice(list(range(P)) + [EMPTY]), rng.choice(list(range(U)) + [EMPTY]))
             else:
-                op = ("U", n, rng.randrange(P))
+                op = ("U", n, rng.choice(list(range(P)) + [EMPTY]))
         ab.apply(op)
         hist.append(op)
     return hist
@@ -195,7 +214,7 @@ def check_history(ctx, k, hist, want_trace=True):
     states = []
     for step, op in enumerate(hist):
         before = impl.bindings()
-        redecl = op[0] == "D" and ("p%d" % op[2]) in before[op[1]] and before[op[1]]["p%d" % op[2]] != "u%d" % op[3]
+        redecl = op[0] == "D" and pstr(op[2]) in before[op[1]] and before[op[1]][pstr(op[2])] != ustr(op[3])
         kind = opname(op, redecl)
         ctx.count("op:" + kind)
         try:
@@ -280,7 +299,7 @@ def run(ctx):
     thorough = ctx.tier == "thorough"
     depth = 5 if thorough else 4
     ctx.extra["rule"] = (f"(i) every history of length 1..{depth} over attach / declare / re-declare / undeclare on {K_SMALL} nodes, "
-                         f"{P_SMALL} prefixes, {U_SMALL} URIs, one per orbit of the renaming symmetry (names numbered by first mention), "
+                         f"{P_SMALL} prefixes, {U_SMALL} URIs + the empty URI, one per orbit of the renaming symmetry (names numbered by first mention), "
                          "attach restricted to detached roots not above the parent; (ii) random histories of length 60 on 12-15 nodes, "
                          "3 prefixes, 3 URIs, random insertion indices; non-trivial = distinct history whose last step changes some binding or some sharing class")
     # ---- (i) exhaustive
